@@ -334,9 +334,9 @@ theorem widen_exact' (f : Fmt) (hf : f.ok) (p : Nat) :
 def stdFmt (f : Fmt) : Prop := f = f16 ∨ f = f32 ∨ f = f64
 
 theorem stdFmt_ok (f : Fmt) (h : stdFmt f) : f.ok := by
-  rcases h with rfl | rfl | rfl <;> (unfold Fmt.ok f16 f32 f64; decide)
+  rcases h with rfl | rfl | rfl <;> (unfold Fmt.ok; decide)
 
-theorem bf16_ok : bf16.ok := by unfold Fmt.ok bf16; decide
+theorem bf16_ok : bf16.ok := by unfold Fmt.ok; decide
 
 theorem packFloat_unpackFloat' (f : Fmt) (hf : f.ok) (b : Bits) (hb : b.length = f.width) (p : Nat)
     (h : unpackFloat f b = some p) : packFloat f p = b := by
@@ -354,7 +354,7 @@ theorem packFloat_unpackFloat' (f : Fmt) (hf : f.ok) (b : Bits) (hb : b.length =
     rw [← h, ← hv, widen_exact' f hf, encode_decode' f hf _ hlt (by rw [hv]; simp), ← hb]
     exact natToBits_bitsToNat b
 
-theorem f64_ok : f64.ok := by unfold Fmt.ok f64; decide
+theorem f64_ok : f64.ok := by unfold Fmt.ok; decide
 
 theorem unpackFloat_packFloat_f64' (p : Nat) (hp : p < 2 ^ 64) (hn : decode f64 p ≠ .nan) :
     unpackFloat f64 (packFloat f64 p) = some p := by
